@@ -24,7 +24,14 @@ def gen_pyproject(rnd, present):
     if style == "inline": body = '[project]\nname = "x"\nversion = "1"\ndependencies = [' + ", ".join(json.dumps(d) for d in deps) + "]\n"
     elif style == "multi": body = '[project]\nname = "x"\ndependencies = [\n' + "".join(f"    {json.dumps(d)},{'  # c' if rnd.random() < 0.2 else ''}\n" for d in deps) + "]\n"
     elif style == "poetry":
-        body = '[tool.poetry]\nname = "x"\nversion = "1"\n\n[tool.poetry.dependencies]\npython = "^3.10"\n' + "".join(f'{Requirement(d).name} = "*"\n' for d in deps) 
+        spec = lambda: rnd.choice(('"*"', '"^1.2"', '"~1.2"', '">=1,<3"', '{version = "^1.0", optional = true}', '{version = "*", extras = ["x"]}'))
+        body = '[tool.poetry]\nname = "x"\nversion = "1"\n\n[tool.poetry.dependencies]\npython = "^3.10"\n' + "".join(f'{Requirement(d).name} = {spec()}\n' for d in deps)
+        if rnd.random() < 0.6:
+            # a type checker is declared: the writer also declares type stubs next to it; stubs the user already declared (any constraint) must survive
+            table = rnd.choice(("tool.poetry.dev-dependencies", "tool.poetry.group.test.dependencies", "tool.poetry.group.dev.dependencies", "tool.poetry.dependencies"))
+            stubs = "".join(f'{n} = {spec()}\n' for n in rnd.sample(["types-defusedxml", "types-WTForms", "types-requests"], rnd.randint(0, 2)))
+            checker = f'{rnd.choice(("mypy", "pyright"))} = "^1.0"\n'
+            body += (checker + stubs) if table == "tool.poetry.dependencies" else f"\n[{table}]\n" + checker + stubs
     else: body = '[project]\nname = "x"\n'
     return body + "\n[tool.black]\nline-length = 88\n"
 def gen_setup_py(rnd, present):
@@ -39,6 +46,38 @@ def gen_setup_cfg(rnd, present):
     else: ir = "install_requires =\n" + "".join(f"    {d}\n" for d in deps)
     return "[metadata]\nname = x\n# comment\n\n[options]\npackages = find:\n" + ir + "\n[options.extras_require]\ndev =\n    pytest\n"
 GEN = {"requirements.txt": gen_requirements, "pyproject.toml": gen_pyproject, "setup.py": gen_setup_py, "setup.cfg": gen_setup_cfg}
+
+def declared_entries(kind, text):
+    """every declared requirement with its exact value: {(where, canonical name): value} - 'keeps every previously declared requirement' means these survive unchanged"""
+    out = {}
+    if kind == "requirements.txt":
+        for l in text.splitlines():
+            s_ = l.split("#")[0].strip()
+            if s_ and not s_.startswith("-"): out[("requirements", canonicalize_name(Requirement(s_).name))] = " ".join(s_.split())
+    elif kind == "pyproject.toml":
+        d = tomllib.loads(text)
+        for dep in d.get("project", {}).get("dependencies", []) or []: out[("project.dependencies", canonicalize_name(Requirement(dep).name))] = " ".join(dep.split())
+        def walk(node, path):
+            if isinstance(node, dict):
+                for k, v_ in node.items():
+                    if k in ("dependencies", "dev-dependencies") and isinstance(v_, dict):
+                        for name, spec in v_.items(): out[(".".join(path + [k]), canonicalize_name(name))] = json.dumps(spec, sort_keys=True)
+                    else: walk(v_, path + [k])
+        walk(d.get("tool", {}).get("poetry", {}), ["tool.poetry"])
+    elif kind == "setup.py":
+        for n in ast.walk(ast.parse(text)):
+            if isinstance(n, ast.Call) and getattr(n.func, "id", None) == "setup":
+                for k in n.keywords:
+                    if k.arg == "install_requires":
+                        for e in k.value.elts: out[("install_requires", canonicalize_name(Requirement(e.value).name))] = " ".join(e.value.split())
+    else:
+        cp = configparser.ConfigParser(); cp.read_string(text)
+        raw = cp["options"].get("install_requires", "") if "options" in cp else ""
+        for part in (raw.splitlines() if "\n" in raw.strip() else [raw]):
+            if part.strip():
+                try: out[("install_requires", canonicalize_name(Requirement(part.strip()).name))] = " ".join(part.split())
+                except Exception: pass
+    return out
 
 def parse(kind, text):
     """-> (set of canonical names with multiplicity Counter, other-content fingerprint) or raises"""
@@ -55,7 +94,13 @@ def parse(kind, text):
         for dep in d.get("project", {}).get("dependencies", []) or []: names[canonicalize_name(Requirement(dep).name)] += 1
         for k in (d.get("tool", {}).get("poetry", {}).get("dependencies", {}) or {}):
             if k != "python": names[canonicalize_name(k)] += 1
-        o = json.loads(json.dumps(d)); o.get("project", {}).pop("dependencies", None); o.get("tool", {}).get("poetry", {}).pop("dependencies", None)
+        o = json.loads(json.dumps(d)); o.get("project", {}).pop("dependencies", None)
+        def strip(node):
+            if isinstance(node, dict):
+                for k in list(node):
+                    if k in ("dependencies", "dev-dependencies") and isinstance(node[k], dict): node.pop(k)
+                    else: strip(node[k])
+        strip(o.get("tool", {}).get("poetry", {}))
         return names, o
     if kind == "setup.py":
         t = ast.parse(text); other = []
@@ -89,6 +134,18 @@ def plan(tier, seed):
             except Exception: continue
             mf[kind] = text; files[kind] = b64(text.encode())
         jobs.append({"id": f"m{k}", "cid": cid, "pkg": pkg, "presence": presence, "manifests": mf, "files": files, "argv": ["{proj}", "--output", "{out}", "--codemod-include", cid], "repeat": 2, "monitors": {"snap": False}})
+    # enumerated: poetry manifest x where the type checker lives x how the user already declared the stub package x codemods whose dependency has stubs
+    STUB = {"pixee:python/use-defusedxml": ("import xml.sax\nxml.sax.parse('f')\n", "defusedxml", "types-defusedxml"), "pixee:python/flask-enable-csrf-protection": ("from flask import Flask\napp = Flask(__name__)\n", "flask-wtf", "types-WTForms")}
+    k = 0
+    for cid, (src, pkg, stub) in sorted(STUB.items()):
+        for table in ("tool.poetry.dev-dependencies", "tool.poetry.group.test.dependencies", "tool.poetry.dependencies"):
+            for spec in ('"*"', '"^0.7.0"', '{version = "^0.7.0", optional = true}', None):
+                if tier == "quick" and (k % 2) != (seed % 2) and spec is not None: k += 1; continue
+                k += 1
+                checker = 'mypy = "^1.0"\n' + (f"{stub} = {spec}\n" if spec else "")
+                text = '[tool.poetry]\nname = "x"\nversion = "1"\n\n[tool.poetry.dependencies]\npython = "^3.10"\nrequests = "^2.0"\n' + (checker if table == "tool.poetry.dependencies" else f"\n[{table}]\n" + checker)
+                jobs.append({"id": f"stub|{cid}|{table}|{spec}", "cid": cid, "pkg": pkg, "presence": None, "manifests": {"pyproject.toml": text}, "files": {"app.py": b64(src.encode()), "pyproject.toml": b64(text.encode())},
+                             "argv": ["{proj}", "--output", "{out}", "--codemod-include", cid], "repeat": 2, "monitors": {"snap": False}})
     # several dependency-adding codemods in ONE run: the same package needed twice (url-sandbox and sandbox-process-creation both need `security`), different packages
     MULTI = [(["pixee:python/url-sandbox", "pixee:python/sandbox-process-creation"], ["security"], "import requests\nimport subprocess\nfrom flask import request\ndef v():\n    requests.get(request.args['u'])\n    subprocess.run(request.args['c'])\n"),
              (["pixee:python/sandbox-process-creation", "pixee:python/url-sandbox"], ["security"], "import requests\nimport subprocess\nfrom flask import request\ndef v():\n    requests.get(request.args['u'])\n    subprocess.run(request.args['c'])\n"),
@@ -122,6 +179,14 @@ def judge(job, res):
             key = f"manifest-no-longer-parses/{kind}"
             if kind == "setup.cfg" and re.search(r"^install_requires\s*=\s*\S", before, flags=re.M): key = "setup-cfg-inline-list-comma-joined"   # value on the key line: the writer appends ', <req>,' to it
             v.append(Violation("C14", key, f"{kind} no longer parses after the update: {ex!r}"[:200], dict(w, after=after))); continue
+        try:
+            db, da = declared_entries(kind, before), declared_entries(kind, after)
+            altered = {k: (v_, da.get(k)) for k, v_ in db.items() if da.get(k) != v_}
+            if altered and not (nb - na):
+                k0 = sorted(altered)[0]
+                v.append(Violation("C14", f"declared-requirement-altered/{kind}/" + ("stub-package" if k0[1].startswith("types-") else "package"), f"previously declared {k0[1]} in {k0[0]} changed from {altered[k0][0]} to {altered[k0][1]}", dict(w, after=after)))
+            st["declared_entries_compared"] += len(db)
+        except Exception as ex: st["declared_oracle_error:" + type(ex).__name__ + ":" + str(ex)[:80]] += 1
         lost = nb - na
         if lost: v.append(Violation("C14", f"requirement-lost/{kind}", f"lost {dict(lost)}", dict(w, after=after)))
         if oa != ob: v.append(Violation("C14", f"unrelated-content-changed/{kind}", "non-dependency content differs", dict(w, after=after)))
